@@ -56,7 +56,7 @@ def run(tier):
         chunk = rng.choice([32, 32, 64, 256])
         enc = rng.choice(list(ENC_PY))
         bom = rng.random() < 0.5
-        nul = rng.random() < 0.02
+        nul = rng.random() < 0.02 and (bom or enc == 'utf8')      # BOM-less UTF-16 text with U+0000 is byte-identical to other UTF-32 text
         text = rand_text(rng, chunk // UNIT[enc], not bom, nul)
         raw = (BOMS[enc] if bom else b'') + text.encode(ENC_PY[enc])
         width = rng.choice([1, 2, 4])
